@@ -915,6 +915,17 @@ def replay_tables(case):
                 RTCMReader.parse(f, validate=v)
             except Exception:  # noqa
                 pass
+    if case.get('msm_awkward'):
+        from . import structs
+        from pyrtcm.rtcmmessage import RTCMMessage
+        for b in structs.MSM_BASES:
+            for lvl in (1, 4, 7):
+                for pl in structs.random_msm_cases(str(b + lvl), 3, 6):
+                    for opt in (1, 2):
+                        try:
+                            RTCMMessage(payload=pl, labelmsm=opt)
+                        except Exception:  # noqa
+                            pass
     cur = snap()
     ch = sorted(f"{m}.{k}" for (m, k) in base if cur.get((m, k)) != base[(m, k)])
     return {"reproduced": bool(ch), "failed": ch, "detail": ("tables modified by parsing: " + ", ".join(ch[:5])) if ch else "ok"}
@@ -1072,6 +1083,24 @@ def replay_options(case):
     budget = 3 * len(data) + 8
     ref_ev, ref_end, _ = drive_reader(io.BytesIO(data), mode, validate=1, parsed=True, labelmsm=label, max_calls=budget)
     ref = [(bytes(e[1]), e[2]) for e in ref_ev if e[0] == 'pair']
+    if case['option'] == 'tworeaders':
+        from pyrtcm.rtcmreader import RTCMReader
+        bad = bytearray(data)
+        for a, b in case['frames']:
+            bad[b - 2] ^= 0x40
+        sa, sb = io.BytesIO(bytes(bad)), io.BytesIO(bytes(bad))
+        if case.get('order', 0) == 0:
+            ra = RTCMReader(sa, validate=0, quitonerror=0, labelmsm=2)
+            rb = RTCMReader(sb, validate=1, quitonerror=0, labelmsm=1, parsed=False)
+        else:
+            rb = RTCMReader(sb, validate=1, quitonerror=0, labelmsm=1, parsed=False)
+            ra = RTCMReader(sa, validate=0, quitonerror=0, labelmsm=2)
+        outa = [x for x in ra]
+        if len(outa) != len(case['frames']):
+            failed.append(f"reader built with validate=0 returned {len(outa)} of {len(case['frames'])} frames with wrong checksums while a validate=1 reader exists")
+        if any(m is not None for _, m in rb):
+            failed.append("parsed=False reader returned parsed objects")
+        return {"reproduced": bool(failed), "failed": failed, "detail": "; ".join(failed)[:400] or "ok"}
     if case['option'] == 'validate':
         bad = bytearray(data)
         for a, b in case['frames']:
@@ -1175,7 +1204,36 @@ def replay_siblings(case):
     return {"reproduced": bool(failed), "failed": failed, "detail": "; ".join(failed) or "ok"}
 
 
-REPLAYERS = {'definition': replay_definition, 'length': replay_length, 'siblings': replay_siblings, 'options': replay_options, 'names': replay_names, 'setattr': replay_setattr, 'tables': replay_tables, 'threads': replay_threads, 'chunked': replay_chunked, 'sockread': replay_sockread, 'parseseq': replay_parseseq, 'roundtrip': replay_roundtrip, 'labelopt': replay_labelopt, 'crcseq': replay_crcseq, 'crc': replay_crc, 'construct': replay_construct, 'stream': replay_stream, 'socket': replay_stream, 'parse': replay_parse}
+def replay_sockpair(case):
+    from pyrtcm.socketwrapper import SocketWrapper
+    enc = case.get('encoding', 0)
+    a, b = bytes.fromhex(case['first']), bytes.fromhex(case['second'])
+    if enc:
+        a = b"%x\r\n" % len(a) + a + b"\r\n"
+        wire_b = b"%x\r\n" % len(b) + b + b"\r\n0\r\n\r\n"
+    else:
+        wire_b = b
+    s1, s2 = ScriptSocket(a), ScriptSocket(wire_b)
+    failed = []
+    try:
+        w1 = SocketWrapper(s1, encoding=enc)
+        w1.read(2)
+        w2 = SocketWrapper(s2, encoding=enc)
+        got = b""
+        for _ in range(len(b) + 3):
+            x = w2.read(1)
+            if not x:
+                break
+            got += bytes(x)
+        if got != b:
+            failed.append(f"second wrapper delivered {got!r}, its stream is {b!r}")
+    finally:
+        s1.close()
+        s2.close()
+    return {"reproduced": bool(failed), "failed": failed, "detail": "; ".join(failed) or "ok"}
+
+
+REPLAYERS = {'sockpair': replay_sockpair, 'definition': replay_definition, 'length': replay_length, 'siblings': replay_siblings, 'options': replay_options, 'names': replay_names, 'setattr': replay_setattr, 'tables': replay_tables, 'threads': replay_threads, 'chunked': replay_chunked, 'sockread': replay_sockread, 'parseseq': replay_parseseq, 'roundtrip': replay_roundtrip, 'labelopt': replay_labelopt, 'crcseq': replay_crcseq, 'crc': replay_crc, 'construct': replay_construct, 'stream': replay_stream, 'socket': replay_stream, 'parse': replay_parse}
 
 
 def replay(case):
